@@ -116,6 +116,9 @@ class PropCheck:
     def judge(self, case, ans):
         raise NotImplementedError
 
+    def release_may_differ(self, case, debug_answer, release_answer):
+        return False
+
     def post_checks(self, cases, res):
         """checks across cases (e.g. all spellings of one query agree); yields (case, ans, Verdict)"""
         return []
@@ -227,7 +230,7 @@ class PropCheck:
             ans = res.get(c.id, {})
             if res_rel is not None:
                 ri = res_rel.get(c.id, {}).get("I")
-                if ri != ans.get("I"):
+                if ri != ans.get("I") and not self.release_may_differ(c, ans.get("I"), ri):
                     v = Verdict("violation", detail="debug and release builds disagree: %r vs %r" % (ans.get("I"), ri))
                     violations.append((c, ans, v))
                     continue
